@@ -612,3 +612,115 @@ def util_callee(t):
   if f.k == 'attr':
     return f.a[1]
   return ''
+
+
+# ------------------------------------------------------------ RADIUS-EXP
+class Inconsistent(Exception):
+  pass
+
+
+class UnitExp:
+  """Integer exponent of one scale atom (e.g. grid.radius) carried by a value
+  relative to its inputs.  None = zero / exponent-free constant (fits anything)."""
+
+  def __init__(self, is_atom, linear_ops=None, summaries=None):
+    self.is_atom = is_atom
+    self.linear_ops = linear_ops or (lambda t: None)   # call term -> data argument terms
+    self.summaries = summaries or (lambda t: None)     # call term -> exponent added by the callee
+    self.memo = {}
+
+  def of(self, t):
+    key = id(t)
+    if key in self.memo and self.memo[key][0] is t:
+      return self.memo[key][1]
+    r = self._of(t)
+    self.memo[key] = (t, r)
+    return r
+
+  def same(self, vals, where):
+    vs = [v for v in vals if v is not None]
+    if not vs:
+      return None
+    if any(v != vs[0] for v in vs):
+      raise Inconsistent(f'terms with different powers of the scale are combined: {vs} in {sym.show(where, maxdepth=4)[:160]}')
+    return vs[0]
+
+  def _of(self, t):
+    if self.is_atom(t):
+      return 1
+    k, a = t.k, t.a
+    if k == 'const':
+      return None if (a[0] == 0 and not isinstance(a[0], bool)) else 0
+    if not sym.contains(t, self.is_atom) and k not in ('call', 'bin', 'un', 'tuple', 'list', 'phi', 'sub', 'store'):
+      return 0
+    if k in ('bcast',):
+      return self.of(a[0])
+    if k == 'sub':
+      return self.of(a[0])
+    if k == 'un':
+      return self.of(a[1]) if a[0] in ('-', '+') else 0
+    if k == 'bin':
+      op = a[0]
+      l, r = self.of(a[1]), self.of(a[2])
+      if op in ('+', '-'):
+        return self.same([l, r], t)
+      if op in ('*', '@'):
+        if l is None or r is None:
+          return None
+        return l + r
+      if op == '/':
+        if l is None:
+          return None
+        return l - (r or 0)
+      if op == '**':
+        e = a[2]
+        if e.k == 'const' and isinstance(e.a[0], int):
+          return None if l is None else l * e.a[0]
+        if (l or 0) == 0:
+          return 0
+        raise Inconsistent(f'non-constant power of a scaled quantity: {sym.show(t)[:120]}')
+      return self.same([l, r], t)
+    if k in ('tuple', 'list'):
+      return self.same([self.of(x) for x in a], t)
+    if k == 'phi':
+      return self.same([self.of(a[1]), self.of(a[2])], t)
+    if k == 'store':
+      return self.same([self.of(a[0]), self.of(a[2])], t)
+    if k == 'mapover':
+      return self.of(a[0])
+    if k == 'call':
+      s = self.summaries(t)
+      data = self.linear_ops(t)
+      if data is not None:
+        base = self.same([self.of(x) for x in data], t)
+        if s is None:
+          return base
+        return None if base is None else base + s
+      short = alg.ext_short(a[0])
+      if short in ('sqrt',) and len(a[1]) == 1:
+        e = self.of(a[1][0])
+        if e is None or e % 2 == 0:
+          return None if e is None else e // 2
+        raise Inconsistent(f'square root of an odd power: {sym.show(t)[:100]}')
+      if short in ('zeros', 'zeros_like'):
+        return None
+      if short in ('ones', 'ones_like', 'arange', 'eye'):
+        return 0
+      if short == 'einsum':
+        ops = [x for x in a[1] if not (x.k == 'const' and isinstance(x.a[0], str))]
+        vals = [self.of(x) for x in ops]
+        if any(v is None for v in vals):
+          return None
+        return sum(vals)
+      if short in ('stack', 'concatenate', 'asarray', 'array', 'pad', 'reshape', 'squeeze', 'expand_dims', 'negative', 'abs', 'absolute', 'broadcast_to', 'real', 'imag', 'where', 'sum', 'split') and a[1]:
+        xs = a[1][0].a if a[1][0].k in ('list', 'tuple') else a[1][(1 if short == 'where' else 0):]
+        return self.same([self.of(x) for x in xs if isinstance(x, Term)], t)
+      if not sym.contains(t, self.is_atom):
+        # opaque call without the atom inside: relative exponent of its data is unknown → 0 if no scaled argument
+        vals = [self.of(x) for x in list(a[1]) + [v for _, v in a[2]]]
+        if all(v in (0, None) for v in vals):
+          return 0
+      raise Inconsistent(f'unmodelled operation on a scaled value: {sym.show(t, maxdepth=3)[:140]}')
+    if not sym.contains(t, self.is_atom):
+      return 0
+    raise Inconsistent(f'unmodelled term kind {k}: {sym.show(t, maxdepth=3)[:120]}')
